@@ -23,6 +23,7 @@ type mgraph struct {
 	event map[string]string   // node -> "run0", "wb1", "we1", "purge0", "tau", "init"
 	succ  map[string][]string // node -> successors (without self loops)
 	edges int
+	label map[string]string // node -> TLC's state text (one line)
 	// TLC statistics
 	generated, distinct, depth int
 }
@@ -59,7 +60,7 @@ func loadGraph(G int) (*mgraph, error) {
 		return nil, err
 	}
 	defer f.Close()
-	g := &mgraph{G: G, event: map[string]string{}, succ: map[string][]string{}}
+	g := &mgraph{G: G, event: map[string]string{}, succ: map[string][]string{}, label: map[string]string{}}
 	sc := bufio.NewScanner(f)
 	sc.Buffer(make([]byte, 1<<20), 1<<26)
 	seenEdge := map[string]bool{}
@@ -83,6 +84,7 @@ func loadGraph(G int) (*mgraph, error) {
 				name += ev[2]
 			}
 			g.event[m[1]] = name
+			g.label[m[1]] = strings.NewReplacer("\\n", " ", "\\\"", "'", "/\\\\", "/\\").Replace(m[2])
 			if name == "init" {
 				g.init = m[1]
 			}
